@@ -324,8 +324,9 @@ def make_optimizer(sampler, obs, model, path, **kw):
     if sampler == 'nestle':
         return cls(observed=obs, model=model, sigma_fraction=1.0, num_live_points=5)
     if sampler == 'multinest':
+        extra = {'multinest_prefix': kw['prefix']} if kw.get('prefix') else {}
         return cls(multi_nest_path=path, observed=obs, model=model, sigma_fraction=1.0,
-                   search_multi_modes=kw.get('multimodal', True))
+                   search_multi_modes=kw.get('multimodal', True), **extra)
     if sampler == 'polychord':
         return cls(polychord_path=path, observed=obs, model=model, sigma_fraction=1.0,
                    cluster=kw.get('cluster', True))
